@@ -8,7 +8,7 @@ BASELINE = "cd /repo && /venv/bin/python -m pytest -ra -q -p no:cacheprovider --
 
 CHECKS = {
  'C01': dict(cat='exploration', tech='output validator (reference DFA) on every to_string return over exhaustive small histories + seeded hostile histories',
-   text='Every normal return of to_string() observed over an exhaustive core of short histories (all <=3 additions, all <=1-2 additions + one other operation, both intelligent_choice values) and seeded hostile histories on all 94 content models is validated against an independent DFA of the schema. Held on the executions observed; exhaustive only inside the stated core.',
+   text='Every normal return of to_string() observed over an exhaustive core of short histories (all <=3 additions, all <=1-2 additions + one other operation, both intelligent_choice values) and seeded hostile histories (including the xsd_check setter switched off and on around an edit, and nested documents with an incomplete checked node smuggled past its parent) on all 94 content models is validated against an independent DFA of the schema. Held on the executions observed; exhaustive only inside the stated core.',
    note='trusts the reference DFAs built from /verif/ref (self-tested; cross-checked against the library templates by C03); children are unchecked minimal instances', ref='7 C01'),
  'C02': dict(cat='exploration', tech='API recorder; oracle = the supplied valid word (reference DFA); exhaustive short words + transition cover + pumped walks',
    text='All words of each of the 94 reference languages up to length 2 (3/4 thorough), one word per DFA edge, seeded pumped walks and long runs (every distinct shortest cycle repeated to ~70/160/400 symbols) are supplied left to right; acceptance, kept order (by identity) and final check are observed. Exhaustive inside the length bound.',
@@ -26,7 +26,7 @@ CHECKS = {
    text='Reference-grammar documents (per element name and whole scores) are built through the API, emitted, re-parsed, compared as infosets (decimal spelling of decimal-typed content tolerated only), round-tripped a second time for byte identity, and parsed integer-typed values are checked to stay int; large scores (70 KB - 1 MB) dense in multi-byte characters are re-written with padding that makes a character straddle every power-of-two offset from 64 KiB.',
    note='documents the builder refuses are inconclusive (counted in evidence), not violations', ref='7 C08'),
  'C09': dict(cat='exploration', tech='parse_musicxml recorder + infoset equality on library-independent certified-valid text, containment checker on mutated text; failing documents localised and shrunk',
-   text='XML text generated without the library from the reference grammar (all attribute forms incl. xml:/xlink:/name=, unusual numeric spellings), real exports, and structure-aware mutations: valid input must load and re-serialise to the same infoset; on any input a returning parser must not have dropped an element, attribute, text or tail.',
+   text='XML text generated without the library from the reference grammar (all attribute forms incl. xml:/xlink:/name=, unusual numeric spellings), real exports, and structure-aware mutations: valid input must load and re-serialise to the same infoset; on any input a returning parser must not have dropped an element, attribute, text or tail - judged on to_string() and on to_string(intelligent_choice=True); every content type additionally with its valid words of up to five children in every order.',
    note='surrounding whitespace of string content treated as insignificant (lenient); reference validator certifies validity', ref='7 C09'),
  'C06': dict(cat='exploration', tech='shadow model + invariants evaluated at every public-call boundary (incl. raise path) + exactly-once output count',
    text='After every operation of every explored history both child views are compared (by identity) with each other and with a sequential shadow model fed by API results only; parents of live and removed children and the per-child count in every serialisation are checked; long histories (~300 children, late replace / remove) and children offered to classes without content model are included.',
